@@ -32,6 +32,18 @@ def completed(ps: List[Dict[str, Any]], vals: Dict[str, Any]) -> Dict[str, Any]:
             if v is None and p["dv"]["t"] != "missing":
                 v = codec.dop_py(p["dop"], p["dv"])
             out[n] = _completed_dop(p["dop"], v)
+            if p["dop"].get("k") == "envdesc" and isinstance(v, dict):
+                # only the entries of the applicable lists (common + those of the referenced trouble code) are encoded
+                refp = next((q for q in ps if q["n"] == p["dop"]["ref"]), None)
+                code = vals.get(refp["n"]) if refp else None
+                if code is None and refp is not None:
+                    src = refp["dv"] if refp["k"] in ("VALUE", "SYSTEM") else refp["cv"]
+                    code = None if src["t"] == "missing" else src["v"]
+                names = {q["n"] for q in p["dop"]["all"]} if p["dop"]["hasall"] else set()
+                hit = [per for per in p["dop"]["per"] if code in per["codes"]]
+                if hit:
+                    names |= {q["n"] for q in hit[0]["ps"]}
+                out[n] = {kk: vv for kk, vv in v.items() if kk in names}
         elif k == "CODED-CONST":
             out[n] = codec.atom_py(p["cv"], p["dct"])
         elif k == "PHYS-CONST":
@@ -50,6 +62,8 @@ def completed(ps: List[Dict[str, Any]], vals: Dict[str, Any]) -> Dict[str, Any]:
 def _completed_dop(d: Dict[str, Any], v: Any) -> Any:
     if v is None:
         return None
+    if d["k"] == "envdesc":
+        return v if isinstance(v, dict) else None      # the supplied entries must come back (which others do depends on the code)
     if d["k"] == "table":
         row = next((r for r in d["rows"] if r["n"] == v[0]), None)
         return (v[0], _completed_dop(row["st"], v[1]) if row is not None and row["st"]["k"] != "none" else None)
@@ -95,7 +109,7 @@ def has_kind(ps: List[Dict[str, Any]], kinds: Tuple[str, ...]) -> bool:
                 break
             if d["k"] in kinds:
                 return True
-            if d["k"] in ("mux", "table"):
+            if d["k"] in ("mux", "table", "envdesc"):
                 break
             d = d["st"]
     return False
